@@ -4,6 +4,8 @@ From Coq Require Import ZArith List Arith Lia Permutation.
 From FF Require Import Model.Tensor Model.PauliIdx Model.Tie.C16 Spec.Kron
   Proofs.TensorIdx Proofs.TensorOrder Proofs.Tensor Proofs.TensorKron Proofs.TensorInsert
   Proofs.TensorInsertModel Proofs.TensorInsertLoop Proofs.TensorUnfold Proofs.TensorTranspose Proofs.TensorMerge Proofs.PauliIdx.
+(* the comparison functions of the correspondence check are built with this file's dependency cone *)
+From FF Require Corr.C16Obs.
 Import ListNotations.
 
 (* ---- util.tensor: the einsum '...ab,...cd->...acbd' + reshape of binary_tensor is the Kronecker product
@@ -266,3 +268,58 @@ Example C16_pauli_example :
   equivalent_pauli [2; 0]%Z 3 = [0; 1; 2; 3; 16; 17; 18; 19; 32; 33; 34; 35; 48; 49; 50; 51] /\
   remap_pauli [1; 0]%Z 2 = Ok [0; 4; 8; 12; 1; 5; 9; 13; 2; 6; 10; 14; 3; 7; 11; 15].
 Proof. split; reflexivity. Qed.
+
+(* ---- the model and all numeric theorems are parametric in the entry type: any commutative monoid of
+   entries (multiplication) with a sum whose zero is neutral (Model/Tensor.v: Entry / EntryLaws).  The
+   statements above are the instance Z (the one evaluated by the exhaustive correspondence); C05 / C06 use the
+   instance of complex pairs over R (Proofs/KronBridgeC.v, outside this file's cone). *)
+Theorem C16_generic_rearrangements : forall (T : Type) (EN : Entry T) (EL : EntryLaws T) r,
+  (forall (F : garr T) Fs, Forall (wf r) (F :: Fs) -> tensor r (F :: Fs) = Ok (kron_chain F Fs)) /\
+  (forall (L G : list (garr T)) (pos : list Z),
+     1 <= r -> 1 <= length L -> Forall (wf r) L -> Forall (wf r) G -> G <> [] ->
+     length pos = length G -> Forall (admissible (length L)) pos ->
+     (do a <- tensor r L; tensor_insert r a G (PSeq pos) (map (fun a => axis_dims a L) (seq 0 r))) =
+     tensor r (chain_spec fst snd (combine (map (npos (length L)) pos) G) 0 L)) /\
+  (forall (LA LI : list (garr T)) (pos : list Z),
+     1 <= r -> 1 <= length LA -> 1 <= length LI -> Forall (wf r) LA -> Forall (wf r) LI ->
+     length pos = length LI -> Forall (admissible (length LA)) pos ->
+     (do a <- tensor r LA; do i <- tensor r LI; tensor_merge r a i pos (dims_table r LA) (dims_table r LI)) =
+     tensor r (chain_spec fst snd (combine (map (npos (length LA)) pos) LI) 0 LA)) /\
+  (forall (L : list (garr T)) ord,
+     1 <= r -> 1 <= length L -> Forall (wf r) L -> Permutation ord (seq 0 (length L)) ->
+     (do a <- tensor r L; tensor_transpose r a (map Z.of_nat ord) (dims_table r L)) = tensor r (permute_list ord L)).
+Proof.
+  exact (fun T EN EL r => conj (@tensor_is_kron_chain T EN EL r)
+           (conj (@insert_equals_tensor_of_rearranged T EN EL r)
+           (conj (@merge_equals_tensor_of_rearranged T EN EL r) (@transpose_equals_tensor_of_rearranged T EN EL r)))).
+Qed.
+Print Assumptions C16_generic_rearrangements.
+(* tensor_transpose / tensor_insert of ARBITRARY tensors (not only Kronecker chains), as index maps *)
+Theorem C16_transpose_index_spec : forall (T : Type) (EN : Entry T) r n (C : garr T) (Ds : list (list nat)) ord,
+  1 <= r -> 1 <= n -> length Ds = r -> Forall (fun d => length d = n) Ds -> wf r C -> shp C = map prodn Ds ->
+  Permutation ord (seq 0 n) ->
+  exists R, tensor_transpose r C (map Z.of_nat ord) Ds = Ok R /\ shp R = shp C /\ length (dat R) = prodn (shp C) /\
+    map prodn (permute_dims ord Ds) = map prodn Ds /\
+    forall V', Forall2 inb V' (permute_dims ord Ds) ->
+      aget R (map2 ravel (permute_dims ord Ds) V') = aget C (map2 ravel Ds (src_blocks n ord V')).
+Proof. exact @transpose_index_spec. Qed.
+Theorem C16_insert_single : forall (T : Type) (EN : Entry T) (EL : EntryLaws T) r n (C G : garr T) (Ds : list (list nat)) (p : Z),
+  1 <= r -> 1 <= n -> length Ds = r -> Forall (fun d => length d = n) Ds -> admissible n p ->
+  wf r C -> wf r G -> shp C = map prodn Ds ->
+  tensor_insert r C [G] (PSeq [p]) Ds =
+  Ok (kron_ins (map (fun d => prodn (firstn (npos n p) d)) Ds) (map (fun d => prodn (skipn (npos n p) d)) Ds) C G).
+Proof. exact @tensor_insert_single. Qed.
+Theorem C16_merge_index_spec : forall (T : Type) (EN : Entry T) (EL : EntryLaws T) r (A I : garr T) (DA DI : list (list nat)) (pos : list Z) n m,
+  1 <= r -> 1 <= m -> 1 <= n -> length DA = r -> length DI = r ->
+  Forall (fun d => length d = n) DA -> Forall (fun d => length d = m) DI ->
+  wf r A -> wf r I -> shp A = map prodn DA -> shp I = map prodn DI ->
+  length pos = m -> Forall (admissible n) pos ->
+  let ps := map (npos n) pos in
+  exists R, tensor_merge r A I pos DA DI = Ok R /\ shp R = map2 Nat.mul (shp I) (shp A) /\
+    map prodn (merged_dims r m n DA DI ps) = map2 Nat.mul (shp I) (shp A) /\
+    forall W, Forall2 inb W (merged_dims r m n DA DI ps) ->
+      aget R (map2 ravel (merged_dims r m n DA DI ps) W) =
+      emul (aget I (map2 ravel DI (ins_blocks r m n ps W))) (aget A (map2 ravel DA (arr_blocks_of r m n ps W))).
+Proof. exact @tensor_merge_index_spec. Qed.
+Print Assumptions C16_transpose_index_spec.
+Print Assumptions C16_merge_index_spec.
